@@ -692,6 +692,7 @@ pub fn dispatch(f: &str, copy: &str, a: &[Arg]) -> Option<Vec<Out>> {
         "poly_sub_ip" => { let (mut x, y) = (poly(&a[0])?, poly(&a[1])?); cd::poly::sub_ip(&mut x, &y); Some(vec![opoly(&x)]) }
         "poly_shiftl" => { let mut p = poly(&a[0])?; cd::poly::shiftl(&mut p); Some(vec![opoly(&p)]) }
         "poly_pointwise" => { let (x, y) = (poly(&a[0])?, poly(&a[1])?); let mut c = Poly::default(); cd::poly::pointwise_montgomery(&mut c, &x, &y); Some(vec![opoly(&c)]) }
+        "poly_pointwise_dirty" => { let (x, y) = (poly(&a[0])?, poly(&a[1])?); let mut c = poly(&a[2])?; cd::poly::pointwise_montgomery(&mut c, &x, &y); Some(vec![opoly(&c)]) }
         "poly_power2round" => { let mut a1 = poly(&a[0])?; let mut a0 = Poly::default(); cd::poly::power2round(&mut a1, &mut a0); Some(vec![opoly(&a1), opoly(&a0)]) }
         "chknorm" => { let p = poly(&a[0])?; Some(vec![oint(cd::poly::chknorm(&p, i32::try_from(int(&a[1])).ok()?))]) }
         "rej_uniform" => {
